@@ -17,6 +17,10 @@ def check(ctx):
     ctx.guard(r178_raw_output, ctx)
     ctx.guard(r174, ctx)
     ctx.guard(_shared_c17, ctx)
+    from .c19 import _engine_rules
+    ctx.rule("R17.9", "each back end seeds its library from the estimator's random_state_ every time it is built, before the networks are "
+                      "created: fit and the equivalent partial_fit sequence start from the same weights (shared with C19 R19.10)")
+    ctx.aliased({"R19.10": "R17.9"}, _engine_rules, ctx)
 
 def _train_steps(r):
     return [e for e in r.events if e.kind == "call" and e.data["fterm"].op == "attr" and e.data["fterm"].args[1] == "train_step"]
